@@ -180,8 +180,11 @@ func (p *queueProcessor) process() {
 		verifhook.Point("q.loop_tick")
 		if ctxManager.GetContext().Err() != nil {
 			// If the context is done, we start draining the queue and release requests.
+			// Keep draining on every tick: a request that passed the slot check before
+			// the drain started registers afterwards, and neither this loop nor the TTL
+			// watcher (which stops with the context) would ever release it otherwise.
 			p.drainQueue()
-			return
+			continue
 		}
 		p.tryProcessQueueItems()
 	}
